@@ -77,8 +77,9 @@ def options(subset, allon):
         PF.reset()
 
 
-def run_once(td, prio, ho, flush_hook_factory, sv_init):
-    reset_globals()
+def run_once(td, prio, ho, flush_hook_factory, sv_init, fresh=False):
+    if not fresh:
+        reset_globals()     # (a fresh thread needs no reset: it must work as it is)
     rt = RT(nkinds=2, prio=prio, hash_order=ho, sv_init=sv_init, monitors=("c08",))
     rt.flush_hook = flush_hook_factory() if flush_hook_factory else None
     try:
@@ -158,8 +159,31 @@ def skeleton(sk, v, k0, k1):
     return td, hook
 
 
-def f_opt(sk, o1, o2, allon, k0, k1, v, p0, p1, ho):
+def on_fresh_thread(thunk):
+    import threading
+    box = {}
+
+    def run():
+        try:
+            box["r"] = ("v", thunk())
+        except BaseException as e:      # noqa
+            box["r"] = ("e", e)
+    th = threading.Thread(target=run)
+    th.start()
+    th.join(120)
+    r = box.get("r", ("e", RuntimeError("thread did not finish")))
+    if r[0] == "e":
+        raise r[1]
+    return r[1]
+
+
+def f_opt(sk, o1, o2, allon, k0, k1, v, p0, p1, ho, thr=False):
     skv = conc(sk, len(SKELETONS))
+    thrv = concb(thr)
+    if thrv:
+        # both runs happen on a fresh thread each (a thread that never used asynq or its profiler before);
+        # CrossHair's symbolic state is per thread, so the values are made concrete first
+        v, p0, p1 = conc(v, 2), conc(p0, 2), conc(p1, 2)
     a, b = conc(o1, NOPT + 1), conc(o2, NOPT + 1)
     al = concb(allon)
     rec.clear_fail()
@@ -172,14 +196,16 @@ def f_opt(sk, o1, o2, allon, k0, k1, v, p0, p1, ho):
     td, hook = skeleton(skv, v, kk0, kk1)
     prio = [p0, p1]
     hov = conc(ho, 2)
-    base = run_once(td, prio, hov, hook, (v + 1000, 0))
+    once = lambda: run_once(td, prio, hov, hook, (v + 1000, 0), thrv)      # noqa: E731
+    runner = (lambda: on_fresh_thread(once)) if thrv else once
+    base = runner()
     with options(subset, al) as sink:
         try:
-            withopt = run_once(td, prio, hov, hook, (v + 1000, 0))
+            withopt = runner()
         except Exception as e:
             prog.reraise_control(e)
-            return rec.fail("options %s on skeleton %r: harness-level exception %r" % (
-                names(subset, al), SKELETONS[skv], e))
+            return rec.fail("options %s on skeleton %r%s: harness-level exception %r" % (
+                names(subset, al), SKELETONS[skv], " (on a fresh thread)" if thrv else "", e))
         out_n = sink.n
     for key in ("outcome", "flushes", "sched", "ctx", "reads", "readvals", "problems", "stack", "active"):
         if base[key] != withopt[key]:
@@ -190,7 +216,9 @@ def f_opt(sk, o1, o2, allon, k0, k1, v, p0, p1, ho):
         rec.wit("paths_with_diagnostic_output")
     if base["outcome"][0] == "e":
         rec.wit("root_failed")
-    rec.done(("c20", skv, tuple(sorted(subset)), al, kk0, kk1), True)
+    if thrv:
+        rec.wit("paths_on_fresh_thread")
+    rec.done(("c20", skv, tuple(sorted(subset)), al, kk0, kk1, thrv), True)
     return True
 
 
@@ -204,11 +232,11 @@ def conds(tier):
     q = tier == "quick"
     nsk = len(SKELETONS)
     ps = [I("sk", 0, nsk - 1), I("o1", 0, NOPT), I("o2", 0, NOPT), B("allon"), I("k0", 0, 1), I("k1", 0, 1),
-          I("v", 0, 1), I("p0", 0, 1), I("p1", 0, 1), I("ho", 0, 1)]
-    pre = ["o1 <= o2", "(not allon) or (o1 == %d and o2 == %d)" % (NOPT, NOPT)]
+          I("v", 0, 1), I("p0", 0, 1), I("p1", 0, 1), I("ho", 0, 1), B("thr")]
+    pre = ["o1 <= o2", "(not allon) or (o1 == %d and o2 == %d)" % (NOPT, NOPT), "(not thr) or o1 == o2"]
     if q:
         pre.append("ho == 0 and k1 == 1")
     return [Cond("opt", f_opt, ps, pin=2, builds=("C",), budget=400 if q else 2400,
                  family="F-OPT: %d program skeletons x option subsets of size <= 2 (+ all on), values/priorities in "
-                        "{0,1} (they are formatted by the dumps)" % nsk, encodes=ENC, extra_pre=pre,
+                        "{0,1} (they are formatted by the dumps); single-option subsets and all-on also with both runs on fresh threads" % nsk, encodes=ENC, extra_pre=pre,
                  shard_filter=None)]
